@@ -546,6 +546,12 @@ _VIRTUAL = None
 def s_isinstance(x, t):
     import numpy as np
     ts = t if isinstance(t, tuple) else (t,)
+    back = {s_int: int, s_float: float, s_bool: bool}
+    ts = tuple(back.get(tt, tt) for tt in ts)
+    t = ts if isinstance(t, tuple) else ts[0]
+    from .proxies import SPyInt
+    if isinstance(x, SPyInt):
+        return int in ts
     for tt in ts:
         if isinstance(x, SInt) and tt is int:
             return True
